@@ -37,6 +37,10 @@ BytesMism(e) ==
 AnyMism(e) ==
   (IF e.slice[1] = 1 /\ e.slice[2] # 1 THEN {"decode.reencode_not_stable:from_slice:" \o e.type} ELSE {})
   \cup (IF e.read[1] = 1 /\ e.read[2] # 1 THEN {"decode.reencode_not_stable:read:" \o e.type} ELSE {})
+  \* ... and the re-encoding is the encoding of the decoded fields: the original header bytes with exactly the reserved bits cleared
+  \* (the typed ICMP headers normalise unused bytes: their fidelity belongs to Ctl.tla)
+  \cup (IF e.slice[1] = 1 /\ e.type \notin {"icmp4", "icmp6"} /\ e.sre # Enc(e.type, Dec(e.type, SubSeq(e.bytes, 1, HdrLen(e.type, e.bytes))))
+        THEN {"reencode:" \o e.type} ELSE {})
 
 VARIABLES l, bad
 TraceInit == l = 1 /\ bad = {}
